@@ -860,6 +860,10 @@ class Exec:
                 return CoroV(cur.state, cur.upvars, tuple(sv), cur.ty)
         if p[0] in ("field", "cindex"):
             idx = p[1]
+            if isinstance(cur, ListV) and p[0] == "cindex" and idx < len(cur.items):
+                items = list(cur.items)
+                items[idx] = self._update(items[idx], proj[1:], val, "")
+                return ListV(tuple(items), cur.ty)
             if isinstance(cur, AggV):
                 fs = list(cur.fields)
                 while len(fs) <= idx:
